@@ -1087,8 +1087,10 @@ def interleave_stage(ctx, pid, names, *, budget_s, all_pairs=False, max_k=40, pa
         if p.mc_only:
             continue
         res, wd = run_tlc(ctx, p, avoid=ALL_AVOID, invariants=["TypeOK"], properties=[], dump=True, tag="il")
-        if getattr(res, "cached", False) is False:
-            ctx.add_tlc(res, f"BatchDB program {n}: state graph for the overlapping-transactions stage")
+        # counted whether TLC ran now or its result for the same spec+config was taken from build/tlc_cache (another check of the same
+        # build directory produced it): what this check covered must not depend on which check happened to run first
+        ctx.add_tlc(res, f"BatchDB program {n}: state graph for the overlapping-transactions stage"
+                         + (" (TLC result cached from an earlier run of the same spec+config)" if getattr(res, "cached", False) else ""))
         g = tlc.parse_dot(wd / "graph.dot")
         out = g.out_edges()
         succ = {}
